@@ -21,7 +21,7 @@ CONFIGS = [
     (0, 0, 2, 3, 6, 9), (2, 0, 2, 3, 6, 8), (0, 2, 2, 3, 6, 8), (2, 2, 2, 3, 5, 7), (1, 2, 3, 3, 5, 7), (2, 1, 1, 3, 5, 7),
     (1, 0, 3, 3, 5, 8), (0, 1, 3, 3, 5, 8), (1, 1, 2, 3, 5, 7), (3, 2, 2, 2, 6, 9),
 ]
-QUICK = {"C13": [0, 1, 3], "C14": [3, 2, 4]}
+QUICK = {"C13": [0, 1, 3], "C14": [3, 2, 4, 7]}
 
 
 def write_cfg(path, R, D, ninit, nids, depth, mode, prop, maxtimers=4):
